@@ -120,6 +120,7 @@ CHECKS = {
             R("TestC07PurgeRefused", 150, 1500),
             R("TestC07Many", 25, 250, ts=4),
             R("TestC07Lapse", 6, 60, qs=8, ts=16, thorough_extra={"timeout": 1200}),
+            R("TestC07Open", 6, 60, qs=8, ts=16, thorough_extra={"timeout": 1200}),
             R("TestC07HeldSigner", 4, 30, qs=6, ts=16, quick_extra={"timeout": 300}),
             E("TestC07SlowLapse", quick={"shards": 1, "timeout": 300}, thorough={"shards": 1, "timeout": 600}),
         ],
@@ -145,7 +146,7 @@ CHECKS = {
         },
         "assumptions": ["golang.org/x/crypto keyring is the underlying agent"],
         "subchecks": [R("TestC09NoUpstream", 300, 1500, qs=2), R("TestC09Many", 25, 250, ts=4), R("TestC09AddedMeanwhile", 300, 3000, ts=8),
-                      R("TestC09Faults", 300, 3000, qs=2, ts=8)],
+                      R("TestC09Faults", 300, 3000, qs=2, ts=8), R("TestC09Locked", 300, 3000, qs=2, ts=8)],
     },
     "C10": {
         "pkg": "c10", "level": "exploration",
@@ -158,13 +159,14 @@ CHECKS = {
         "subchecks": [
             R("TestC10Shim", 400, 1500, qs=2),
             E("TestC10ConstructFaults"),
+            E("TestC10LongLived", thorough={"shards": 1, "timeout": 600}),
         ],
     },
     "C11": {
         "pkg": "c11", "level": "exploration", "race": True,
         "manifest": {
-            "text": "generated concurrent programs (2..16 goroutines, direct calls and served connections, both modes, purging inside the race window) run under the race detector; every request carries a unique tag so that crossed replies are visible; mutations follow per-goroutine life cycles of disjoint keys, which makes the set of sequential outcomes a single state that the final keyring and listing are compared with; small programs over SHARED keys (hardware-certificate registration racing with remove / remove-all) are judged by an exhaustive search for a sequential order that explains every caller's observation and the final state against a pure model of the two tables; fixed signers / extension / forward storms target the two places the property names; one request answered by the underlying agent only after seconds (touch / PIN prompt) with other clients queued behind it must not shift anybody's replies; Close called while another caller's request is outstanding at the underlying agent (the request precedes Close in every sequential order); 8..150 (thorough: 600) wait requests for a code nobody sends parked on one production server, part of their clients gone, while other clients' add / list / sign / remove must complete and the awaited request, when it arrives, releases the waiters that stayed",
-            "note": "schedules are sampled, not enumerated; the race detector reports any unsynchronised pair that executes, independent of timing, which is why it is the main oracle; signing through Signer objects returned by Signers() is outside the listed operations and not generated",
+            "text": "generated concurrent programs (2..16 goroutines, direct calls and served connections, both modes, purging inside the race window) run under the race detector; every request carries a unique tag so that crossed replies are visible; mutations follow per-goroutine life cycles of disjoint keys, which makes the set of sequential outcomes a single state that the final keyring and listing are compared with; small programs over SHARED keys (hardware-certificate registration racing with remove / remove-all) are judged by an exhaustive search for a sequential order that explains every caller's observation and the final state against a pure model of the two tables; fixed signers / extension / forward storms target the two places the property names; one request answered by the underlying agent only after seconds (touch / PIN prompt) with other clients queued behind it must not shift anybody's replies; Close called while another caller's request is outstanding at the underlying agent (the request precedes Close in every sequential order); 8..150 (thorough: 600) wait requests for a code nobody sends parked on one production server, part of their clients gone, while other clients' add / list / sign / remove must complete and the awaited request, when it arrives, releases the waiters that stayed; signatures through kept signers that the token refuses, racing with listings, signers calls, repeated registrations and raw forwards (a failed signature is an operation like any other and removes nothing)",
+            "note": "schedules are sampled, not enumerated; the race detector reports any unsynchronised pair that executes, independent of timing, which is why it is the main oracle; signing through Signer objects returned by Signers() is generated in fixed storms only (TestC11SignersStorm, TestC11RefusedHeldSigner), not in the random programs",
             "technique": "generated concurrent programs (rapid) + Go race detector + tag matching + order-independent final-state oracle + sequential-explanation search against a reference model",
         },
         "assumptions": ["a program that does not finish within 60 s is a deadlock (operations take milliseconds)", "GORACE=halt_on_error=1: a race report ends the process, the journaled program is the replay"],
@@ -175,6 +177,7 @@ CHECKS = {
             E("TestC11VanishingClient", quick={"shards": 1, "timeout": 600}, thorough={"shards": 1, "timeout": 900}),
             E("TestC11ReadYourWrites", quick={"shards": 1, "timeout": 600}, thorough={"shards": 1, "timeout": 1200}),
             E("TestC11ParkedWaits", quick={"shards": 1, "timeout": 600}, thorough={"shards": 1, "timeout": 900}),
+            E("TestC11RefusedHeldSigner", quick={"shards": 1, "timeout": 600}, thorough={"shards": 1, "timeout": 900}),
             R("TestC11Concurrent", 40, 250, qs=2, quick_extra={"timeout": 600}, thorough_extra={"timeout": 1500}),
             R("TestC11Sequential", 150, 1500, qs=2, ts=8, quick_extra={"timeout": 600}, thorough_extra={"timeout": 1500}),
         ],
@@ -192,6 +195,7 @@ CHECKS = {
             E("TestC12Sizes"),
             R("TestC12Stream", 5000, 50000),
             R("TestC12StreamReal", 300, 2000, ts=8),
+            R("TestC12Sessions", 400, 4000, ts=8),
             R("TestC12LocalSlots", 60, 600, ts=4),
             E("TestC12SlowHandler"),
             R("TestC12WaitFirstUse", 15, 100, qs=8, ts=16),
@@ -328,7 +332,7 @@ CHECKS = {
             R("TestC20Wait", 200, 2000, qs=2, quick_extra={"timeout": 300}),
             R("TestC20Blackbox", 12, 120, qs=4, ts=8, quick_extra={"timeout": 300}),
             R("TestC20Concurrent", 8, 60, qs=4, ts=8, quick_extra={"timeout": 300}),
-            E("TestC20Construct"), E("TestC20BusyUpstream", quick={"shards": 1, "timeout": 300}, thorough={"shards": 1, "timeout": 600}),
+            E("TestC20Construct"), E("TestC20UpstreamBroken"), E("TestC20BusyUpstream", quick={"shards": 1, "timeout": 300}, thorough={"shards": 1, "timeout": 600}),
         ],
     },
 }
